@@ -136,6 +136,10 @@ def validate_linemap(chk, res, oracle, label):
 def native_edit(oracle, w):
     """apply the witness' edits natively (one oracle call per edit, chained through the returned text)"""
     doc = w['doc']
+    if len(w['edits']) > 1:
+        # a chain of changes runs on ONE Vfs: every change sees the text and the line map the previous one left
+        nat = oracle.ask('edits', doc=doc, edits=[dict(l1=e['range'][0], c1=e['range'][1], l2=e['range'][2], c2=e['range'][3], ins=e['ins']) for e in w['edits']])
+        return nat, nat.get('text', doc)
     for e in w['edits']:
         l1, c1, l2, c2 = e['range']
         nat = oracle.ask('edit', doc=doc, l1=l1, c1=c1, l2=l2, c2=c2, ins=e['ins'])
